@@ -22,7 +22,8 @@ RULE = ('cases = random flat machines (2-6 states, plain or Enum states, labels,
         'of 0-7 steps: model.trigger(event) (known triggers, to_<state>, unknown names), add_states (top level, '
         'leaf or compound), add_transition, remove_transition (with and without source/dest filters); in 40 % of '
         'the cases with events (non-Enum, all states simple) 1-3 on_enter callbacks fire follow-up events from inside '
-        'the callback (chains A -e1-> B, on_enter of B fires e2, B -e2-> C; budget 1-3 per call); every 9th '
+        'the callback (chains A -e1-> B, on_enter of B fires e2, B -e2-> C; budget 1-3 per call; also in on_exit lists, '
+        'and callbacks that regenerate the graph); 30 % of all cases use the async graph machine classes; every 9th '
         'case is a static "wide" case (more states / transitions, no history).  After construction and after '
         'every step the full and the region-of-interest diagram are parsed and compared (edge lines as a set, '
         'labels of one edge as a multiset).  Non-trivial: the model state changed at least once during the '
@@ -30,22 +31,25 @@ RULE = ('cases = random flat machines (2-6 states, plain or Enum states, labels,
         'distinct by hash of the case.')
 ASSUMPTIONS = ['only the Mermaid backend exists in this sandbox (python modules graphviz / pygraphviz are not '
                'installed): every case uses graph_engine="mermaid"; the graphviz backends are not exercised',
-               'one model per machine; callbacks do not raise; the only callbacks that call back into the machine are '
-               'on_enter callbacks firing a follow-up event with model.trigger (unqueued machines, nesting bounded by '
-               'a per-call counter 1-3, failing follow-ups swallowed by the callback), on machines whose states are all '
-               'simple (either machine class); on_exit callbacks that fire events or callbacks that regenerate the '
-               'graphs are reported findings (probes/KF-C16-2.py, KF-C16-3.py) and not generated; async graph machines '
-               'are not exercised (probes/KF-C16-1.py)',
-               'histories with events use machines without parallel states (dispatch on a single active branch: '
-               'leaf first, then ancestors, first transition whose checks pass); parallel states are covered in '
-               'cases whose history consists of add/remove operations only (the model state may be a parallel '
-               'configuration)',
+               'one model per machine; callbacks do not raise; callbacks that call back into the machine are (i) on_enter / '
+               'on_exit callbacks firing a follow-up event with model.trigger (unqueued synchronous machines, nesting bounded '
+               'by a per-call counter 1-3, failing follow-ups swallowed by the callback) and (ii) callbacks calling '
+               'model.get_graph(force_new=True), both on machines whose states are all simple (either machine class); '
+               'on_exit callbacks of these two kinds leave a stale active style: known findings KF-C16-3 / KF-C16-2, '
+               'classified only for the oracle clause "styled active but not current" directly after an event and never for '
+               'a model/implementation disagreement',
+               '30 % of the cases run on AsyncGraphMachine / HierarchicalAsyncGraphMachine (asyncio.run around every '
+               'trigger, plain callbacks only: an async machine runs a callback list concurrently and follow-up events need '
+               'coroutine callbacks - task scheduling is C08\'s subject; no custom transition labels: AsyncTransition has no '
+               'label keyword; compound states are not added after construction on the async hierarchical class: the fix of '
+               'D26 does not reach it, reported); the locked graph machine classes are not exercised',
                'transitions are registered at the root scope with full state names; tags and timeout state '
                'attributes (show_state_attributes) are not covered; header lines (title, direction, classDef) and '
                'indentation of the Mermaid text are skipped by the parser',
                'the order of edge lines and of the labels within one edge line is not compared (dict order)']
 THEOREMS = ['C16_states_once', 'C16_nesting', 'C16_parallel_separated', 'C16_edges', 'C16_edges_user',
-            'C16_edges_only', 'C16_label', 'C16_marks', 'C16_styles', 'C16_styles_exit_refuted', 'C16_roi',
+            'C16_edges_only', 'C16_label', 'C16_marks', 'C16_styles', 'C16_styles_exit_refuted',
+            'C16_styles_regen_refuted', 'C16_roi',
             'C16_refresh', 'C16_added_state', 'C16_added_transition', 'C16_removed_transition', 'C16_example_wf',
             'C16_example_nested']
 
@@ -59,11 +63,15 @@ CBS = ['cbA', 'cbB', 'cbC']
 LABEL_ALPHA = 'abcXYZ019 .-+()[]!&/'
 # compound states added after construction (stale root 'children' in the markup, see the final report)
 ADD_COMPOUND = True
+# the same on HierarchicalAsyncGraphMachine (the fix of D26 does not reach it: reported)
+ASYNC_ADD_COMPOUND = False
 # callbacks that fire a follow-up event from inside the callback (nested processing on an unqueued machine)
 ACT_CBS = ['fwA', 'fwB', 'fwC']
-# acting callbacks in on_exit lists: the model mirrors the library (a stale 'active' style remains, see
-# Props/C16.v C16_styles_exit_refuted and probes/KF-C16-3.py); not generated until the finding is decided
-EXIT_ACTS = False
+# callbacks that regenerate the model's graph from inside the callback: model.get_graph(force_new=True)
+REGEN_CBS = ['rgA', 'rgB']
+# acting / regenerating callbacks in on_exit lists: the model mirrors the library (a stale 'active' style remains,
+# Props/C16.v C16_styles_exit_refuted / C16_styles_regen_refuted); known findings KF-C16-3 / KF-C16-2
+EXIT_ACTS = True
 
 
 def _import_transitions():
@@ -154,11 +162,12 @@ def gen(rng, i, tier):
     trans = [_trans(rng, paths, val) for _ in range(rng.randint(1, 16 if wide else 8))]
     opts = dict(conds=rng.random() < 0.5, auto=rng.random() < 0.25, attrs=rng.random() < 0.35)
     case = dict(kind='hsm' if hsm else 'flat', enum=use_enum, opts=opts, states=forest, trans=trans,
-                initial=rng.choice(paths), ops=[], val=val, acts={}, budget=0)
+                initial=rng.choice(paths), ops=[], val=val, acts={}, budget=0, regen=[],
+                cls='async' if rng.random() < 0.3 else 'sync')
     if nested:
         _add_acts(rng, case, val)
     if wide:
-        return case
+        return _fit_class(case)
     cur_forest = copy.deepcopy(forest)
     cur_trans = list(trans)
     for _ in range(rng.randint(0, 7)):
@@ -176,7 +185,8 @@ def gen(rng, i, tier):
                 ev = rng.choice(TRIGGERS)
             case['ops'].append(['ev', ev])
         elif r < 0.75 and not use_enum and len(ids) > 4:
-            nd = _node(rng, ids, 1, hsm and ADD_COMPOUND and not nested, hsm and not with_events)
+            nd = _node(rng, ids, 1, hsm and ADD_COMPOUND and not nested
+                       and (ASYNC_ADD_COMPOUND or case['cls'] != 'async'), hsm and not with_events)
             if nested and rng.random() < 0.4:
                 nd['enter'].insert(rng.randint(0, len(nd['enter'])), rng.choice(sorted(case['acts']) or ACT_CBS[:1]))
             cur_forest.append(nd)
@@ -195,6 +205,23 @@ def gen(rng, i, tier):
                 return (u['trig'] == t['trig'] and (src is None or u['src'] == src)
                         and (dst is None or u['dst'] == dst))
             cur_trans = [u for u in cur_trans if not gone(u)]
+    return _fit_class(case)
+
+
+def _fit_class(case):
+    """async graph machines use AsyncTransition, which has no 'label' keyword (custom edge labels are a feature of
+    TransitionGraphSupport only): no custom transition labels in async cases"""
+    if case['cls'] == 'async':
+        for t in case['trans'] + [o[1] for o in case['ops'] if o[0] == 'addt']:
+            t['label'] = None
+        # an async machine runs the callbacks of one list concurrently (asyncio.gather) and a follow-up event has to
+        # be awaited from a coroutine callback: task scheduling / cancellation is C08's subject, not modelled here.
+        # Async cases keep plain callbacks only (no-ops and graph-regenerating ones).
+        for nd in _all_nodes(case['states']) + [n for o in case['ops'] if o[0] == 'adds' for n in _all_nodes([o[1]])]:
+            for key in ('enter', 'exit'):
+                nd[key] = [c for c in nd[key] if c not in case['acts']]
+        case['acts'] = {}
+        case['budget'] = 0
     return case
 
 
@@ -224,9 +251,15 @@ def _add_acts(rng, case, val):
         if rng.random() < 0.4:
             nd = rng.choice(forest)
             nd['enter'].insert(rng.randint(0, len(nd['enter'])), cb)
-        if EXIT_ACTS and rng.random() < 0.3:
+        if EXIT_ACTS and rng.random() < 0.4:
             nd = rng.choice(forest)
             nd['exit'].insert(rng.randint(0, len(nd['exit'])), cb)
+    if rng.random() < 0.4:
+        for cb in REGEN_CBS[:rng.randint(1, len(REGEN_CBS))]:
+            case['regen'].append(cb)
+            nd = rng.choice(forest)
+            key = 'exit' if (EXIT_ACTS and rng.random() < 0.4) else 'enter'
+            nd[key].insert(rng.randint(0, len(nd[key])), cb)
     if rng.random() < 0.5:
         case['initial'] = rng.choice([t['src'] for t in trans])
 
@@ -266,7 +299,8 @@ def enc(case):
     return [[o['conds'], o['auto'], o['attrs'], case['kind'] == 'hsm', bool(case['enum'])],
             [enc_node(n) for n in case['states']], [enc_trans(t) for t in case['trans']],
             case['initial'], [enc_op(x) for x in case['ops']],
-            [[_s(c), _s(e)] for c, e in sorted(case.get('acts', {}).items())], case.get('budget', 0)]
+            [[_s(c), _s(e)] for c, e in sorted(case.get('acts', {}).items())], case.get('budget', 0),
+            [_s(c) for c in case.get('regen', [])]]
 
 
 # ------------------------------------------------------------------ implementation side
@@ -379,6 +413,11 @@ def impl(case):
     from transitions.extensions import GraphMachine, HierarchicalGraphMachine
     from transitions.extensions.nesting import NestedState
     hsm = case['kind'] == 'hsm'
+    is_async = case.get('cls', 'sync') == 'async'
+    if is_async:
+        import asyncio
+        from transitions.extensions import AsyncGraphMachine, HierarchicalAsyncGraphMachine
+        from transitions.extensions.asyncio import AsyncState, NestedAsyncState
     names = _Names(case['states'])
     val = case['val']
 
@@ -398,6 +437,23 @@ def impl(case):
     class HsmM(HierarchicalGraphMachine):
         state_cls = LNested
 
+    if is_async:
+        class LAState(AsyncState):
+            def __init__(self, *args, **kwargs):
+                self.label = kwargs.pop('label', None)
+                super(LAState, self).__init__(*args, **kwargs)
+
+        class LANested(NestedAsyncState):
+            def __init__(self, *args, **kwargs):
+                self.label = kwargs.pop('label', None)
+                super(LANested, self).__init__(*args, **kwargs)
+
+        class FlatM(AsyncGraphMachine):  # noqa: F811
+            state_cls = LAState
+
+        class HsmM(HierarchicalAsyncGraphMachine):  # noqa: F811
+            state_cls = LANested
+
     class Model(object):
         pass
     for c in CONDS:
@@ -414,8 +470,20 @@ def impl(case):
                 except (tr.MachineError, AttributeError):
                     pass
         return cb
+
+    def acting_async(ev):
+        async def cb(self, *a, **k):
+            if self.budget_ > 0:
+                self.budget_ -= 1
+                try:
+                    await self.trigger(ev)
+                except (tr.MachineError, AttributeError):
+                    pass
+        return cb
     for c, ev in case.get('acts', {}).items():
-        setattr(Model, c, acting(ev))
+        setattr(Model, c, (acting_async if is_async else acting)(ev))
+    for c in case.get('regen', []):
+        setattr(Model, c, lambda self, *a, **k: self.get_graph(force_new=True))
     Model.budget_ = 0
     model = Model()
 
@@ -456,7 +524,12 @@ def impl(case):
         if op[0] == 'ev':
             model.budget_ = case.get('budget', 0)
             try:
-                model.trigger(op[1])
+                if is_async:
+                    async def _go(name=op[1]):
+                        return await model.trigger(name)
+                    asyncio.run(_go())
+                else:
+                    model.trigger(op[1])
             except (tr.MachineError, AttributeError):
                 pass
         elif op[0] == 'adds':
@@ -505,12 +578,10 @@ def in_envelope(case):
     if any(o[0] == 'ev' for o in case['ops']) and any(has_par(f) for f in forests):
         return False
     acts = case.get('acts', {})
-    if acts:
-        # follow-up events from state callbacks: machines whose states are all simple; on_enter callbacks only
+    if acts or case.get('regen'):
+        # callbacks that call back into the machine: machines whose states are all simple
         nodes = [nd for f in forests for nd in _all_nodes(f)]
         if any(nd['kids'] for nd in nodes):
-            return False
-        if not EXIT_ACTS and any(c in acts for nd in nodes for c in nd['exit']):
             return False
     return True
 
@@ -526,8 +597,44 @@ def _top(case, k):
 
 def oracle(case, obs):
     """The styling / declaration clauses of the property, evaluated on the implementation's observation alone."""
+    return _oracle(case, obs)[0]
+
+
+def classify_known(case, model_obs, impl_obs):
+    """Known findings KF-C16-2 / KF-C16-3.  Only for a failure of the oracle clause 'styled active but not current'
+    (model_obs is None: main.py passes the model's observation only for model/implementation disagreements, which
+    are never classified), directly after an event, on a machine where some on_exit callback fires a follow-up event
+    (KF-C16-3) or regenerates the graph (KF-C16-2)."""
+    if model_obs is not None:
+        return None
+    msg, kind, k, state = _oracle(case, canon(case, impl_obs))
+    if kind != 'stale-active' or k == 0 or case['ops'][k - 1][0] != 'ev':
+        return None
+    forests = [case['states']] + [[o[1]] for o in case['ops'][:k - 1] if o[0] == 'adds']
+    nodes = [nd for f in forests for nd in _all_nodes(f)]
+    acts, regen = case.get('acts', {}), case.get('regen', [])
+    exit_act = any(c in acts for nd in nodes for c in nd['exit'])
+    exit_regen = any(c in regen for nd in nodes for c in nd['exit'])
+    prev_cur = canon(case, impl_obs)[1][k - 1][0]
+    if exit_regen and state in prev_cur and any(c in regen for nd in nodes if [nd['id']] == state for c in nd['exit']):
+        return 'KF-C16-2'       # the source of the outer transition stays active: regenerated while leaving it
+    if exit_act:
+        return 'KF-C16-3'
+    if exit_regen:
+        return 'KF-C16-2'
+    return None
+
+
+def _oracle(case, obs):
     if not isinstance(obs, list) or not obs or obs[0] != 1:
-        return 'no observation'
+        return 'no observation', 'none', 0, None
+    r = _oracle_msg(case, obs)
+    if r is None:
+        return None, None, 0, None
+    return r if isinstance(r, tuple) else (r, 'other', 0, None)
+
+
+def _oracle_msg(case, obs):
     for k, (cur, full, roi) in enumerate(obs[1]):
         decls = [l[1] for l in full if l[0] == 0]
         if len(decls) != len({tuple(d) for d in decls}):
@@ -542,7 +649,7 @@ def oracle(case, obs):
         act = [l[1] for l in full if l[0] == 2 and l[2] == 1]
         for a in act:
             if a not in cur:
-                return 'state %r styled active but not current (moment %d)' % (a, k)
+                return ('state %r styled active but not current (moment %d)' % (a, k), 'stale-active', k, a)
         for c in cur:
             if len(c) == 1 and c not in act:
                 return 'current top-level state %r not styled active (moment %d)' % (c, k)
@@ -563,6 +670,9 @@ def stats(case, obs, dist):
         inc('enum_states')
     if case.get('acts'):
         inc('with_follow_up_callbacks')
+    if case.get('regen'):
+        inc('with_regenerating_callbacks')
+    inc('class_' + case.get('cls', 'sync'))
     for k in ('conds', 'auto', 'attrs'):
         if case['opts'][k]:
             inc('opt_' + k)
@@ -608,6 +718,14 @@ def shrink_candidates(case):
     for cb in sorted(case.get('acts', {})):
         c = copy.deepcopy(case)
         del c['acts'][cb]
+        yield c
+    for cb in case.get('regen', []):
+        c = copy.deepcopy(case)
+        c['regen'].remove(cb)
+        yield c
+    if case.get('cls') == 'async':
+        c = copy.deepcopy(case)
+        c['cls'] = 'sync'
         yield c
     for i, t in enumerate(case['trans']):
         for key in ('conds', 'unless'):
